@@ -5,6 +5,7 @@ import (
 	"encoding/json"
 	"fmt"
 	"math/big"
+	"os"
 	"reflect"
 	"regexp"
 	"sort"
@@ -70,6 +71,8 @@ type Profile struct {
 	// PTie: probability that a new batch copies the start date of an existing one.
 	PTie float64 `json:"p_tie"`
 }
+
+var debugSteps = os.Getenv("VERIF_DEBUG_STEPS") != ""
 
 var creatorKinds = map[string]bool{"CreateClass": true, "CreateProject": true, "CreateBatch": true, "BasketCreate": true, "Sell": true, "BridgeReceive": true}
 
@@ -253,6 +256,13 @@ func (g *Gen) emit(st *Step) bool {
 		return true
 	}
 	g.Trace.Steps = append(g.Trace.Steps, st)
+	if debugSteps {
+		note := ""
+		if st.Tx != nil {
+			note = st.Tx.Note
+		}
+		fmt.Fprintf(os.Stderr, "step %d %s %s snap=%v\n", len(g.Trace.Steps)-1, st.Kind, note, st.SimSnap)
+	}
 	return g.W.Exec(st)
 }
 
